@@ -111,7 +111,12 @@ def run(res):
     from props.theorems import THEOREMS
     prove_obligations(res, THEOREMS.get("C14", []))
     cases = corpus_cases() + c01_cases(rng, 20000 if thorough else 1500, max_n=400) + rl_range_cases(rng, 60 if thorough else 10) + adversarial(rng, 4000 if thorough else 400, 6000 if thorough else 3000)
+    cases.append(deep_huffman_case(8, rng))
     out = pl.run_pipeline(res, cases, want_spec=False, want_model_reader=False)
+    # a million numbers, 97.8% of them in one range spanning the whole type, beside ranges whose counts make
+    # the optimal code tree 17 levels deep: only the size oracle on the real output (no model run)
+    big = [deep_huffman_case(256, rng, dt, many=True) for dt in (["u32", "u64", "i16"] if thorough else ["u32"])]
+    big_ans = lib.run_impl([pl.compress_query(c) for c in big], timeout=1200)
     obad, kbad = [], []
     worst = 0.0
     for rec in out:
@@ -129,6 +134,17 @@ def run(res):
         # body size is the exact byte length produced by the format arithmetic of the model writer
         if not pl.check_writer_bytes(rec):
             kbad.append(rec)
+    for c, a in zip(big, big_ans):
+        comp = pl.parse_compress(a)
+        res.seen((c["dt"], "deep-huffman-1M", len(c["chunks"][0])))
+        res.count("shape:deep-huffman-1M")
+        if comp is None:
+            obad.append((dict(case=dict(c, chunks=[c["chunks"][0][:20]])), "compress failed: " + a[:100])); continue
+        why = check_sizes(c, comp)
+        mx = max(len(p["code"]) - 1 for p in comp["metas"][0]["table"])
+        res.notes.append("deep-huffman-1M %s: %d ranges, longest code %d bits, body %.3f bits per number" % (c["dt"], len(comp["metas"][0]["table"]), mx, comp["metas"][0]["body"] * 8 / len(c["chunks"][0])))
+        if why:
+            obad.append((dict(case=dict(c, chunks=[c["chunks"][0][:20] + ["... deep_huffman_case(256, many=True)"]]), comp=comp), why))
     res.notes.append("largest observed (body bits per number - W) over chunks with n >= 50: %.3f" % worst)
     res.sample({"case": pl.short(out[-1]["case"]), "sizes": [(m["n"], m["body"], len(m["table"])) for m in (out[-1]["comp"] or {"metas": []})["metas"]]})
     res.oblige("O:body_bytes(chunk) <= ceil(n*(W+4)/8) and total_len <= 8 + sum(12 + (order+1)*W/8 + n_prefixes*((67+3W)/8+1) + body bound), on the real output",
